@@ -22,6 +22,19 @@ var reused = map[string]ci.CommandInterface{}
 
 var held = mon.NewHeldRing(96)
 
+// recomputedCount: "<Struct>.<slice field>" -> count field that Marshal derives itself (measured by the slot probe)
+var recomputedCount = map[string]string{}
+
+// derivedCounts is what the slot probe measured on the tree these monitors were built against:
+// the counts a caller may leave stale because Marshal writes len(buffer). The run-time
+// measurement cannot be the reference here (a library that starts trusting a stale count looks
+// "responsive" to the probe), so the reference is this list; losing a member of it is reported.
+var derivedCounts = map[string]string{
+	"NegotiateResponse.Challenge":     "ChallengeLength",
+	"TreeConnectAndxRequest.Password": "PasswordLength",
+	"WriteAndCloseRequest.Data":       "CountOfBytesToWrite",
+}
+
 type slot struct {
 	leaf   smbgen.IntLeaf
 	lo, hi int // byte range [lo,hi) in the encoded command
@@ -170,6 +183,30 @@ func decodeEditEncode(s smbgen.Struct, rels []smbgen.Relation, d ci.CommandInter
 		w1, err1, pan1, _, _ := marshal(e)
 		w2, err2, pan2, _, _ := marshal(fresh)
 		r.Eval(2)
+		// a count that Marshal itself derives from the buffer must follow the edit even when the
+		// caller left the old count in the structure: edit only the buffer of a re-decoded object
+		// and require that the encoding decodes to the new buffer
+		if rc := derivedCounts[s.Name+"."+name]; rc != "" && !pan1 && err1 == nil {
+			g := s.New()
+			buf2 := append(make([]byte, 0, len(wire)+64), wire...)
+			var ge error
+			if p, _, _ := mon.Guard(func() { _, ge = g.Unmarshal(buf2) }); !p && ge == nil {
+				gv := reflect.ValueOf(g).Elem()
+				gv.Field(fi).SetBytes(append([]byte{}, nb...)) // count field deliberately left as decoded
+				w3, err3, pan3, _, _ := marshal(g)
+				h := s.New()
+				var he error
+				var hp bool
+				if !pan3 && err3 == nil {
+					hp, _, _ = mon.Guard(func() { _, he = h.Unmarshal(append([]byte{}, w3...)) })
+				}
+				r.Eval(2)
+				if pan3 || err3 != nil || hp || he != nil || !bytes.Equal(reflect.ValueOf(h).Elem().Field(fi).Bytes(), nb) {
+					r.Violation(s.Name+":stale-count:"+rc, fmt.Sprintf("%s is derived by Marshal from %s; after decoding and replacing %s by a %d-byte buffer (count left as decoded) the encoding does not decode to the new buffer (err %v / %v)", rc, name, name, n, err3, he),
+						map[string]any{"struct": s.Name, "field": name, "count": rc, "wire": mon.FullHex(w3)})
+				}
+			}
+		}
 		if pan1 != pan2 || (err1 == nil) != (err2 == nil) || !bytes.Equal(w1, w2) {
 			r.Violation(s.Name+":decode-edit-encode:"+name, fmt.Sprintf("after decoding, replacing %s by a %d-byte buffer and encoding, the bytes differ from those of a fresh structure with the same field values (%d vs %d bytes; err %v / %v)", name, n, len(w1), len(w2), err1, err2),
 				map[string]any{"struct": s.Name, "field": name, "decoded_then_edited_wire": mon.FullHex(w1), "fresh_wire": mon.FullHex(w2), "original_wire": mon.FullHex(wire)})
@@ -304,6 +341,11 @@ func slotProbe(s smbgen.Struct, rels []smbgen.Relation) {
 			}
 			if !responsive {
 				allowed += lf.Width
+				for _, rl := range rels {
+					if rl.Count == lf.Top {
+						recomputedCount[s.Name+"."+rl.Slice] = lf.Top
+					}
+				}
 			}
 		}
 	}
@@ -383,6 +425,7 @@ func main() {
 		if u := smbgen.Fill(probe, rels, r.Rand("probe|"+s.Name), smbgen.ModeOne, 4); len(u) > 0 {
 			unconstrained[s.Name] = u
 		}
+		slotProbe(s, rels)
 		for m := smbgen.ModeDistinct; m <= smbgen.ModeOne; m++ {
 			roundTrip(s, rels, m, 0, 6)
 		}
@@ -396,10 +439,10 @@ func main() {
 			}
 			roundTrip(s, rels, smbgen.ModeRandom, i, maxLen)
 		}
-		slotProbe(s, rels)
 	}
 	sort.Strings(names)
 	r.Extra("structure_names", names)
 	r.Extra("slices_without_relation", unconstrained)
+	r.Extra("counts_derived_by_marshal", recomputedCount)
 	r.Finish()
 }
